@@ -229,6 +229,11 @@ pub(crate) fn format_rtu_pdu(
     ))
 }
 
+#[cfg(feature = "verif-hooks")]
+pub(crate) fn verif_crc(bytes: &[u8]) -> u16 {
+    CRC.checksum(bytes)
+}
+
 pub(crate) struct RtuDisplay<'a> {
     level: FrameDecodeLevel,
     destination: FrameDestination,
